@@ -459,7 +459,7 @@ func TestConcurrentSessions(t *testing.T) {
 	caseIdx := 0
 	weight := 0.25
 	if os.Getenv("VERIF_VARIANT") == "race" {
-		weight = 1 // the variant's base count is a tenth of the main one
+		weight = 0.5 // the variant's base count is a tenth of the main one
 	}
 	hx.Check(t, weight, func(t *rapid.T) {
 		caseIdx++
